@@ -23,6 +23,7 @@ RULE = ('1-5 metric definitions per tracepoint x 4 types x labels (none, static 
         'least one call expected or a no-processor phase exercised; distinct by canonical case')
 ASSUMPTIONS = ['numeric-looking strings are not used as "non-numeric" values', 'absent help/unit may arrive as None or ""',
                'label values are compared as text']
+RULE += '; values whose conversion to a number / to text ends in SystemExit; module globals read only inside a generator expression or lambda'
 REQUIRE = {'overlapping_hits_checked': 30, 'runs_with_a_processor_that_adds_a_label': 40, 'calls_compared': 2500, 'hits_checked': 1500, 'no_processor_phases': 60, 'wire_definitions': 300,
            'failing_value_exprs': 100, 'label_exprs': 300, 'same_name_definitions': 100,
            'label_sets_kept': 2000}
